@@ -9,9 +9,23 @@ use std::panic::{catch_unwind, AssertUnwindSafe};
 
 #[derive(Clone, Debug, serde::Serialize, serde::Deserialize)]
 struct It { id: u16, tag: u32 }
-impl PartialEq for It { fn eq(&self, o: &Self) -> bool { self.id == o.id } }
+impl PartialEq for It { fn eq(&self, o: &Self) -> bool { tick("user Eq::eq"); self.id == o.id } }
 impl Eq for It {}
-impl Hash for It { fn hash<H: Hasher>(&self, h: &mut H) { self.id.hash(h) } }
+impl Hash for It { fn hash<H: Hasher>(&self, h: &mut H) { tick("user Hash::hash"); self.id.hash(h) } }
+
+/// priority type whose comparison is user code that can be made to panic (fault injection for C10)
+#[derive(Clone, Copy, Debug, PartialEq, Eq, serde::Serialize, serde::Deserialize)]
+#[serde(transparent)]
+struct Pr(i32);
+impl Ord for Pr { fn cmp(&self, o: &Self) -> std::cmp::Ordering { tick("user Ord::cmp"); self.0.cmp(&o.0) } }
+impl PartialOrd for Pr { fn partial_cmp(&self, o: &Self) -> Option<std::cmp::Ordering> { Some(self.cmp(o)) } }
+impl std::ops::AddAssign<i32> for Pr { fn add_assign(&mut self, d: i32) { self.0 += d } }
+impl std::ops::SubAssign<i32> for Pr { fn sub_assign(&mut self, d: i32) { self.0 -= d } }
+fn pr(v: Vec<(It, i32)>) -> Vec<(It, Pr)> { v.into_iter().map(|(i, p)| (i, Pr(p))).collect() }
+
+thread_local! { static TRIP: std::cell::Cell<u32> = std::cell::Cell::new(0); }
+/// when armed with k, the k-th call of user Ord / Hash / Eq code from now on panics
+fn tick(what: &str) { TRIP.with(|t| { let v = t.get(); if v > 0 { t.set(v - 1); if v == 1 { panic!("{} (injected)", what) } } }) }
 
 struct Rng(u64);
 impl Rng {
@@ -74,25 +88,25 @@ trait Q: Clone {
 macro_rules! common { ($T:ident) => {
     fn new() -> Self { $T::new() }
     fn len(&self) -> usize { $T::len(self) }
-    fn push(&mut self, i: It, p: i32) -> Option<i32> { $T::push(self, i, p) }
-    fn get(&self, id: u16) -> Option<(u32, i32)> { $T::get(self, &It { id, tag: 0 }).map(|(i, p)| (i.tag, *p)) }
-    fn iter_pairs(&self) -> Vec<(u16, u32, i32)> { self.iter().map(|(i, p)| (i.id, i.tag, *p)).collect() }
+    fn push(&mut self, i: It, p: i32) -> Option<i32> { $T::push(self, i, Pr(p)).map(|x| x.0) }
+    fn get(&self, id: u16) -> Option<(u32, i32)> { $T::get(self, &It { id, tag: 0 }).map(|(i, p)| (i.tag, p.0)) }
+    fn iter_pairs(&self) -> Vec<(u16, u32, i32)> { self.iter().map(|(i, p)| (i.id, i.tag, p.0)).collect() }
     fn iter_len_hint(&self) -> (usize, (usize, Option<usize>)) { let it = self.iter(); (it.len(), it.size_hint()) }
-    fn change(&mut self, id: u16, p: i32) -> Option<i32> { self.change_priority(&It { id, tag: 9999 }, p) }
+    fn change(&mut self, id: u16, p: i32) -> Option<i32> { self.change_priority(&It { id, tag: 9999 }, Pr(p)).map(|x| x.0) }
     fn change_by(&mut self, id: u16, d: i32) -> bool { self.change_priority_by(&It { id, tag: 9999 }, |p| *p += d) }
-    fn push_inc(&mut self, i: It, p: i32) -> Option<i32> { self.push_increase(i, p) }
-    fn push_dec(&mut self, i: It, p: i32) -> Option<i32> { self.push_decrease(i, p) }
-    fn remove(&mut self, id: u16) -> Option<(It, i32)> { $T::remove(self, &It { id, tag: 9999 }) }
+    fn push_inc(&mut self, i: It, p: i32) -> Option<i32> { self.push_increase(i, Pr(p)).map(|x| x.0) }
+    fn push_dec(&mut self, i: It, p: i32) -> Option<i32> { self.push_decrease(i, Pr(p)).map(|x| x.0) }
+    fn remove(&mut self, id: u16) -> Option<(It, i32)> { $T::remove(self, &It { id, tag: 9999 }).map(|(i, p)| (i, p.0)) }
     fn retain_mut(&mut self, m: u16, d: i32) { $T::retain_mut(self, |i, p| { *p += d * (i.id as i32 % 3 - 1); i.id % m != 0 }) }
-    fn extend_h(&mut self, v: Vec<(It, i32)>, lo: usize, hi: Option<usize>) { self.extend(Hinted { it: v.into_iter(), lo, hi }) }
-    fn append_from(&mut self, v: Vec<(It, i32)>) -> usize { let mut o: Self = v.into_iter().collect(); self.append(&mut o); o.len() }
+    fn extend_h(&mut self, v: Vec<(It, i32)>, lo: usize, hi: Option<usize>) { self.extend(Hinted { it: pr(v).into_iter(), lo, hi }) }
+    fn append_from(&mut self, v: Vec<(It, i32)>) -> usize { let mut o: Self = pr(v).into_iter().collect(); self.append(&mut o); o.len() }
     fn clear(&mut self) { $T::clear(self) }
     fn drain_k(&mut self, k: usize, forget: bool) -> Vec<(It, i32)> {
-        let mut d = self.drain(); let mut got = vec![]; for _ in 0..k { if let Some(x) = d.next() { got.push(x); } }
-        if forget { std::mem::forget(d); } else { got.extend(d); } got }
+        let mut d = self.drain(); let mut got = vec![]; for _ in 0..k { if let Some(x) = d.next() { got.push((x.0, (x.1).0)); } }
+        if forget { std::mem::forget(d); } else { got.extend(d.map(|(i, p)| (i, p.0))); } got }
     fn set_tag(&mut self, id: u16, tag: u32) -> bool { match self.get_mut(&It { id, tag: 0 }) { Some((i, _)) => { i.tag = tag; true } None => false } }
-    fn from_vec(v: Vec<(It, i32)>) -> Self { $T::from(v) }
-    fn from_it(v: Vec<(It, i32)>, lo: usize, hi: Option<usize>) -> Self { Hinted { it: v.into_iter(), lo, hi }.collect() }
+    fn from_vec(v: Vec<(It, i32)>) -> Self { $T::from(pr(v)) }
+    fn from_it(v: Vec<(It, i32)>, lo: usize, hi: Option<usize>) -> Self { Hinted { it: pr(v).into_iter(), lo, hi }.collect() }
     fn roundtrip(&self) -> Result<Self, String> { let s = serde_json::to_string(self).map_err(|e| e.to_string())?; serde_json::from_str(&s).map_err(|e| e.to_string()) }
     fn same(&self, o: &Self) -> bool { self == o }
     fn from_json(s: &str) -> Result<Self, String> { serde_json::from_str(s).map_err(|e| e.to_string()) }
@@ -103,7 +117,7 @@ macro_rules! common { ($T:ident) => {
             0 => { self.change_priority_by(&It { id, tag: 0 }, |p| { *p -= 1000; panic!("user closure") }); }
             1 => { $T::retain_mut(self, |_, p| { n += 1; *p -= 7; if n > k { panic!("user predicate") } n % 2 == 0 }); }
             2 => { $T::retain(self, |_, _| { n += 1; if n > k { panic!("user predicate") } n % 3 != 0 }); }
-            3 => { let l = $T::len(self); self.extend((0..l + 40).map(|j| { if j > k { panic!("user iterator") } (It { id: (j * 7 % 60) as u16, tag: 1 }, (j % 11) as i32) })); }
+            3 => { let l = $T::len(self); self.extend((0..l + 40).map(|j| { if j > k { panic!("user iterator") } (It { id: (j * 7 % 60) as u16, tag: 1 }, Pr((j % 11) as i32)) })); }
             4 => { for (_, p) in self.iter_mut() { n += 1; *p += 13 * (n as i32 % 5); if n > k { panic!("user loop body") } } }
             _ => { let mut d = self.drain(); for _ in 0..k { d.next(); } panic!("user code while draining") }
         }
@@ -123,28 +137,28 @@ macro_rules! common { ($T:ident) => {
         Ok(()) }
 } }
 
-impl Q for PriorityQueue<It, i32> {
+impl Q for PriorityQueue<It, Pr> {
     fn kind() -> &'static str { "PriorityQueue" }
     common!(PriorityQueue);
-    fn extremes(&self) -> (Option<i32>, Option<i32>) { (None, self.peek().map(|(_, p)| *p)) }
-    fn pop_hi(&mut self) -> Option<(It, i32)> { self.pop() }
-    fn pop_lo(&mut self) -> Option<(It, i32)> { self.pop() }
-    fn pop_hi_if(&mut self, newp: i32, accept: bool) -> Option<(It, i32)> { self.pop_if(|_, p| { *p = newp; accept }) }
+    fn extremes(&self) -> (Option<i32>, Option<i32>) { (None, self.peek().map(|(_, p)| p.0)) }
+    fn pop_hi(&mut self) -> Option<(It, i32)> { self.pop().map(|(i, p)| (i, p.0)) }
+    fn pop_lo(&mut self) -> Option<(It, i32)> { self.pop().map(|(i, p)| (i, p.0)) }
+    fn pop_hi_if(&mut self, newp: i32, accept: bool) -> Option<(It, i32)> { self.pop_if(|_, p| { *p = Pr(newp); accept }).map(|(i, p)| (i, p.0)) }
     fn iter_mut_rewrite(&mut self, k: usize, d: i32, _b: bool) { for (_, p) in self.iter_mut().take(k) { *p += d; } }
     fn sorted_desc(self) -> Vec<It> { self.into_sorted_vec() }
     fn pop_hi_if_panic(&mut self) { self.pop_if(|_, p| { *p -= 900; panic!("user predicate") }); }
     fn sorted_iter_lens(self, k: usize) -> Result<(), String> { let n = PriorityQueue::len(&self); let mut it = self.into_sorted_iter(); let mut left = n;
         for _ in 0..=k { let (lo, hi) = it.size_hint(); if lo > left || hi.map_or(false, |h| h < left) { return Err(format!("into_sorted_iter: size_hint {:?} with {} elements left", (lo, hi), left)); }
             if it.next().is_some() { left -= 1; } } Ok(()) }
-    fn convert(self) -> Self { let d: DoublePriorityQueue<It, i32> = self.into(); d.into() }
+    fn convert(self) -> Self { let d: DoublePriorityQueue<It, Pr> = self.into(); d.into() }
 }
-impl Q for DoublePriorityQueue<It, i32> {
+impl Q for DoublePriorityQueue<It, Pr> {
     fn kind() -> &'static str { "DoublePriorityQueue" }
     common!(DoublePriorityQueue);
-    fn extremes(&self) -> (Option<i32>, Option<i32>) { (self.peek_min().map(|(_, p)| *p), self.peek_max().map(|(_, p)| *p)) }
-    fn pop_hi(&mut self) -> Option<(It, i32)> { self.pop_max() }
-    fn pop_lo(&mut self) -> Option<(It, i32)> { self.pop_min() }
-    fn pop_hi_if(&mut self, newp: i32, accept: bool) -> Option<(It, i32)> { self.pop_max_if(|_, p| { *p = newp; accept }) }
+    fn extremes(&self) -> (Option<i32>, Option<i32>) { (self.peek_min().map(|(_, p)| p.0), self.peek_max().map(|(_, p)| p.0)) }
+    fn pop_hi(&mut self) -> Option<(It, i32)> { self.pop_max().map(|(i, p)| (i, p.0)) }
+    fn pop_lo(&mut self) -> Option<(It, i32)> { self.pop_min().map(|(i, p)| (i, p.0)) }
+    fn pop_hi_if(&mut self, newp: i32, accept: bool) -> Option<(It, i32)> { self.pop_max_if(|_, p| { *p = Pr(newp); accept }).map(|(i, p)| (i, p.0)) }
     fn iter_mut_rewrite(&mut self, k: usize, d: i32, from_back: bool) {
         let mut it = self.iter_mut();
         for _ in 0..k { let x = if from_back { it.next_back() } else { it.next() }; if let Some((_, p)) = x { *p += d; } } }
@@ -153,7 +167,7 @@ impl Q for DoublePriorityQueue<It, i32> {
     fn sorted_iter_lens(self, k: usize) -> Result<(), String> { let n = DoublePriorityQueue::len(&self); let mut it = self.into_sorted_iter(); let mut left = n;
         for j in 0..=k { if it.len() != left || it.size_hint() != (left, Some(left)) { return Err(format!("into_sorted_iter: len {} size_hint {:?} with {} elements left", it.len(), it.size_hint(), left)); }
             let x = if j % 2 == 0 { it.next() } else { it.next_back() }; if x.is_some() { left -= 1; } } Ok(()) }
-    fn convert(self) -> Self { let d: PriorityQueue<It, i32> = self.into(); d.into() }
+    fn convert(self) -> Self { let d: PriorityQueue<It, Pr> = self.into(); d.into() }
 }
 
 static FAULTS: std::sync::atomic::AtomicBool = std::sync::atomic::AtomicBool::new(false);
@@ -182,7 +196,7 @@ fn step<T: Q>(q: &mut T, m: &mut Model, r: &mut Rng, log: &mut Vec<String>) -> R
     let p = if r.below(4) == 0 { r.below(1000) as i32 - 500 } else { r.below(7) as i32 };
     let tag = r.below(1_000_000) as u32;
     let faults = FAULTS.load(std::sync::atomic::Ordering::Relaxed);
-    let op = { let o = r.below(if faults { 28 } else { 24 }); if !faults && o == 23 { 24 } else { o } };
+    let op = { let o = r.below(if faults { 32 } else { 24 }); if !faults && o == 23 { 24 } else { o } };
     // an observable that is wrong right after an operation is also a failure of what that operation promises
     let oplabel = match op { 9 | 10 => "C11", 15 | 16 => "C08", 17 => "C08,C09", 18 | 19 => "C07", 20 => "C16", 21 => "C12", 22 => "C14,C15,C06,C07", 24 => "C17", _ => "" };
     match op {
@@ -273,6 +287,11 @@ fn step<T: Q>(q: &mut T, m: &mut Model, r: &mut Rng, log: &mut Vec<String>) -> R
             let conv = c.convert(); ck!(conv.same(q), "C07", "conversion changed the contents"); *q = conv; }
         23 => { log.push("FAULT: mem::forget(iter_mut()) without writing through it".into()); q.leak_iter_mut(0); return Err(Fail { props: "FAULT".into(), what: String::new() }); }
         25 => { { let w = 1 + r.below(6) as usize; log.push(format!("FAULT: mem::forget(iter_mut()) after lowering the first {} priorities", w)); q.leak_iter_mut(w); return Err(Fail { props: "FAULT".into(), what: String::new() }); } }
+        28..=31 => { let k = 1 + r.below(14) as u32; log.push(format!("FAULT: the next operation runs with the {}. call of the user's Ord::cmp / Hash::hash / Eq::eq panicking (caught)", k));
+                FAULTS.store(false, std::sync::atomic::Ordering::Relaxed); TRIP.with(|t| t.set(k));
+                let _ = catch_unwind(AssertUnwindSafe(|| step(q, m, r, log)));
+                TRIP.with(|t| t.set(0)); FAULTS.store(true, std::sync::atomic::Ordering::Relaxed);
+                return Err(Fail { props: "FAULT".into(), what: String::new() }); }
         26 | 27 => { let which = r.below(7); let k = r.below(12) as usize; log.push(format!("FAULT: operation #{} whose callback panics at call {} (caught)", which, k + 1));
                 let which2 = if T::kind() == "PriorityQueue" || which < 6 { which } else { 5 };
                 let _ = catch_unwind(AssertUnwindSafe(|| if which2 == 6 { q.pop_hi_if_panic() } else { q.faulty(which2, k, id) })); return Err(Fail { props: "FAULT".into(), what: String::new() }); }
@@ -306,7 +325,7 @@ fn run_seq<T: Q>(seed: u64, index: u64, len: usize, want: &str, trace: bool) -> 
 }
 
 fn one(seed: u64, index: u64, l: usize, want: &str, trace: bool) -> Option<(String, Vec<String>)> {
-    if index % 2 == 0 { run_seq::<PriorityQueue<It, i32>>(seed, index, l, want, trace) } else { run_seq::<DoublePriorityQueue<It, i32>>(seed, index, l, want, trace) }
+    if index % 2 == 0 { run_seq::<PriorityQueue<It, Pr>>(seed, index, l, want, trace) } else { run_seq::<DoublePriorityQueue<It, Pr>>(seed, index, l, want, trace) }
 }
 
 fn main() {
